@@ -686,6 +686,28 @@ func ruleC07Complement(c *Ctx) {
 						}
 					}
 				}
+			case *ssa.Extract:
+				// _, ok := set[k]
+				if lk, ok := x.Tuple.(*ssa.Lookup); ok && x.Index == 1 {
+					for _, s := range traceSources(lk.X) {
+						if ld, ok := s.(*ssa.UnOp); ok {
+							if fa, ok := ld.X.(*ssa.FieldAddr); ok && m.isFrameAnns(fa) {
+								out = append(out, atom{core.CanonFieldOf(fa.X.Type(), fa.Field), pol, "member"})
+							}
+						}
+					}
+				}
+			case *ssa.Call:
+				// set.has(k): a package function whose result is the presence of its second argument in its first
+				if callee := x.Call.StaticCallee(); callee != nil && c.P.InPkg(callee) && len(x.Call.Args) == 2 && isMembershipFn(callee) {
+					for _, s := range traceSources(x.Call.Args[0]) {
+						if ld, ok := s.(*ssa.UnOp); ok {
+							if fa, ok := ld.X.(*ssa.FieldAddr); ok && m.isFrameAnns(fa) {
+								out = append(out, atom{core.CanonFieldOf(fa.X.Type(), fa.Field), pol, "member"})
+							}
+						}
+					}
+				}
 			}
 		}
 		if fn != m.E && fn.Parent() != nil {
@@ -891,6 +913,9 @@ func ruleC07Records(c *Ctx) {
 					if ld, ok := x.Map.(*ssa.UnOp); ok && resolveCell(ld.X) == evalPropsCell {
 						if k, ok := x.Value.(*ssa.Const); ok && k.Value != nil && k.Value.String() == "true" {
 							out[x.Block()] = true
+						}
+						if st, ok := x.Value.Type().Underlying().(*types.Struct); ok && st.NumFields() == 0 {
+							out[x.Block()] = true // map[K]struct{} as a set
 						}
 					}
 				}
@@ -1252,4 +1277,33 @@ func ruleC07NoApplicatorSkipped(c *Ctx) {
 			fmt.Sprintf("the evaluation of %v can be skipped depending on the unrelated keyword(s) %v: the keyword's verdict and the annotations it would record (for unevaluated*) are lost for those schemas", own, uniq(bad)))
 	}
 	c.R.Floor(rule, "evaluation sites", n, 20)
+}
+
+// isMembershipFn: fn(set, key) returns whether key is present in the map set (a lookup of its second parameter in its first).
+func isMembershipFn(fn *ssa.Function) bool {
+	if len(fn.Params) != 2 || fn.Signature.Results().Len() != 1 || !isBoolType(fn.Signature.Results().At(0).Type()) {
+		return false
+	}
+	ok := false
+	n := 0
+	core.EachInstr(fn, func(i ssa.Instruction) {
+		ret, isRet := i.(*ssa.Return)
+		if !isRet || len(ret.Results) != 1 {
+			return
+		}
+		n++
+		v := ret.Results[0]
+		if ex, isEx := v.(*ssa.Extract); isEx && ex.Index == 1 {
+			if lk, isLk := ex.Tuple.(*ssa.Lookup); isLk && lk.X == fn.Params[0] && lk.Index == fn.Params[1] {
+				ok = true
+				return
+			}
+		}
+		if lk, isLk := v.(*ssa.Lookup); isLk && lk.X == fn.Params[0] && lk.Index == fn.Params[1] {
+			ok = true
+			return
+		}
+		ok = false
+	})
+	return ok && n == 1
 }
